@@ -71,6 +71,14 @@ WideCases(op) ==
    \A a \in WideShapes : \A b \in {<<a[1], 1>>, <<1, a[2]>>, <<>>, <<2, 1>>, <<1, 3>>, <<a[2]>>} :
       PrintT(<<"CASE", ToJson([CaseOf(op, "f32", a, b) EXCEPT !.feat = @ \o <<"wide_extents">>])>>)
       /\ (op = "MultidirectionalBroadcast" => PrintT(<<"CASE", ToJson([CaseOf(op, "f32", b, a) EXCEPT !.feat = @ \o <<"wide_extents">>])>>))
+\* operands that hold the same elements under different shapes (a column and a row of one vector): the harness also builds them as
+\* two tensor objects over ONE backing slice
+SameDataCases(op) ==
+   \A p \in {<<<<3, 1>>, <<1, 3>>>>, <<<<3>>, <<1, 3>>>>, <<<<1, 3>>, <<3>>>>, <<<<2, 3>>, <<3, 2>>>>, <<<<6>>, <<2, 3>>>>, <<<<2, 1, 2>>, <<1, 4>>>>, <<<<4, 1>>, <<2, 2>>>>} :
+      LET A == Iota("f32", p[1], 0) B == Iota("f32", p[2], 0) IN
+      PrintT(<<"CASE", ToJson([prop |-> "C14", fam |-> "bcast", kind |-> "helper", op |-> op, attrs |-> <<>>, inputs |-> <<A, B>>, nout |-> 2,
+                               allowed |-> IF op = "MultidirectionalBroadcast" THEN Multi(A, B) ELSE Uni(A, B),
+                               cmp |-> "bits", keep |-> TRUE, feat |-> Feat(p[1], p[2]) \o <<"same_data">>, known |-> <<>>])>>)
 \* very high ranks (66 axes): an operand stretched along an axis beyond position 64, another prepended with 65 axes
 HighRankCases(op) ==
    LET lead2 == [i \in 1..66 |-> IF i = 1 THEN 2 ELSE 1] tail3 == [i \in 1..66 |-> IF i = 66 THEN 3 ELSE 1] mid == [i \in 1..66 |-> IF i = 65 THEN 2 ELSE 1] IN
@@ -85,7 +93,7 @@ TileCases(op) ==
       TileLaw(LAMBDA ins : IF op = "MultidirectionalBroadcast" THEN Multi(ins[1], ins[2]) ELSE Uni(ins[1], ins[2]), c.inputs, v[3]) =>
          PrintT(<<"CASE", ToJson([c EXCEPT !.feat = @ \o <<"tile_law">>] @@ [tile |-> TileField(v[3])])>>)
 Emit == /\ ~st.done
-        /\ (st.dt = "f32" /\ st.a = <<>> /\ st.b = <<>> => ValueCases(st.op) /\ LongCases(st.op) /\ TileCases(st.op) /\ WideCases(st.op) /\ HighRankCases(st.op))
+        /\ (st.dt = "f32" /\ st.a = <<>> /\ st.b = <<>> => ValueCases(st.op) /\ LongCases(st.op) /\ TileCases(st.op) /\ WideCases(st.op) /\ HighRankCases(st.op) /\ SameDataCases(st.op))
         /\ PrintT(<<"CASE", ToJson(CaseOf(st.op, st.dt, st.a, st.b))>>)
         /\ (st.dt = "f32" /\ Len(st.a) <= 2 /\ Len(st.b) <= 2 =>
               \A p \in MixedPairs : PrintT(<<"CASE", ToJson(MixedCase(st.op, p[1], p[2], st.a, st.b))>>))
